@@ -9,12 +9,17 @@ import (
 
 // mkdirAll crete directories recursive
 func mkdirAll(d *Dir, subPath string, filemode os.FileMode) (dir *Dir, err error) {
-	nodesPath := strings.Split(varutil.CleanPath(subPath), "/")
-	return mkdirAllNodes(d, nodesPath, filemode)
+	if subPath, err = varutil.ReduceAbsPath(subPath); err != nil {
+		return nil, err
+	}
+	return mkdirAllNodes(d, strings.Split(subPath, "/"), filemode)
 }
 
 func mkdirAllNodes(d *Dir, nodesPath []string, filemode os.FileMode) (dir *Dir, err error) {
 	for _, nodeName := range nodesPath {
+		if nodeName == "" {
+			continue
+		}
 		if d, err = d.mkdir(nodeName, filemode); err != nil {
 			return nil, err
 		}
